@@ -75,6 +75,8 @@ def c09_program(rng):
     if r2 >= 4:     # inside a length-limited region that does not start at offset 0 (end-relative targets are relative to the region's end)
         body = A.Struct(A.Renamed("x", core), A.Renamed("r", A.GreedyBytes))
         region = A.FixedSized(rng.choice([3, 4, 5]), body) if rng.random() < 0.7 else A.Prefixed(A.Alias("Byte"), body)
+        if rng.random() < 0.35:     # a region inside a region, neither starting at offset 0 of what encloses it
+            region = A.Prefixed(A.Alias("Byte"), A.Struct(A.Renamed("g", A.Bytes(rng.choice([1, 2]))), A.Renamed("q", region), A.Renamed("r2", A.GreedyBytes)))
         return A.Struct(A.Renamed("h", A.Bytes(rng.choice([1, 2, 3]))), A.Renamed("p", region), A.Renamed("t", A.Tell))
     if r2 == 0: return core
     if r2 == 1: return A.Struct(A.Renamed("x", core), A.Renamed("rest", A.GreedyBytes))
@@ -176,9 +178,10 @@ def c07_scope(rng, depth, names):
     if kind == "FocusedSeq": return A.FocusedSeq(rng.choice(["p", "x", "s"] if inner else ["p", "x"]), *body)
     if kind == "Union": return A.Union(rng.choice([None, 0, "x"]), *body)
     elem = A.Struct(*body)
-    if kind == "Array": return A.Array(rng.choice([1, 2]), elem)
-    if kind == "GreedyRange": return A.GreedyRange(elem)
-    return A.RepeatUntil(A.Bin("==", A.Item(A.Obj, "x"), A.C(0)), elem)
+    disc = rng.random() < 0.25        # a repeater that throws its elements away runs them in the same scopes, with the same indexes
+    if kind == "Array": return A.Array(rng.choice([1, 2, 3]), elem, discard=disc)
+    if kind == "GreedyRange": return A.GreedyRange(elem, discard=disc)
+    return A.RepeatUntil(A.Bin("==", A.Item(A.Obj, "x"), A.C(0)), elem, discard=disc)
 
 def c07_program(rng):
     return c07_scope(rng, rng.choice([0, 1, 2]), [])
@@ -251,8 +254,31 @@ def fixed_programs():
            (A.Struct(A.Renamed("h", A.Bytes(3)), A.Renamed("x", A.Prefixed(A.Alias("Byte"), b3_range)), A.Renamed("t", A.Alias("Byte"))), {},
             [{"h": b"abc", "x": v, "t": 9} for v in v2]),
            (A.Struct(A.Renamed("n", A.Alias("Byte")), A.Renamed("x", A.FixedSized(3, nib_rest))), {}, [{"n": 1, "x": {"a": 3, "rest": bytes([1, 0] * 10)}}])]
-    out += recursive_programs() + list_adapter_programs()
+    out += recursive_programs() + list_adapter_programs() + measuring_in_streams()
+    # keyword arguments read through _params from inside nested scopes that are not Structs (the scope a PrefixedArray / FocusedSeq opens)
+    W = A.T("_params", "w")
+    out += [(A.Struct(A.Renamed("k", A.Alias("Byte")), A.Renamed("items", A.PrefixedArray(A.Alias("Byte"), A.BytesInteger(W)))), {"w": 2}, [{"k": 1, "items": [1, 258]}, {"k": 0, "items": []}]),
+            (A.Struct(A.Renamed("w", A.Alias("Byte")), A.Renamed("items", A.PrefixedArray(A.Alias("Byte"), A.BytesInteger(W)))), {"w": 2}, [{"w": 1, "items": [1, 2]}, {"w": 3, "items": [513]}]),
+            (A.Sequence(A.Alias("Byte"), A.FocusedSeq("d", A.Const(b"\x01"), A.Renamed("d", A.Bytes(W)))), {"w": 2}, [[5, b"ab"]]),
+            (A.PrefixedArray(A.Alias("Byte"), A.PrefixedArray(A.Alias("Byte"), A.BytesInteger(W, swapped=True))), {"w": 2}, [[[1, 2], [], [772]]]),
+            (A.Struct(A.Renamed("h", A.Alias("Byte")), A.Renamed("s", A.Struct(A.Renamed("f", A.FocusedSeq("x", A.Renamed("x", A.Array(W, A.Alias("Byte")))))))), {"w": 2}, [{"h": 1, "s": {"f": [7, 8]}}])]
+    # positions counted from the end, inside regions that do not start at offset 0
+    out += [(A.Struct(A.Renamed("hdr", A.Alias("Int16ub")), A.Renamed("body", A.Prefixed(A.Alias("Byte"), A.Struct(A.Renamed("data", A.OffsettedEnd(-2, A.GreedyBytes)), A.Renamed("crc", A.Bytes(2)))))), {},
+             [{"hdr": 1, "body": {"data": b"abcde", "crc": b"XY"}}, {"hdr": 1, "body": {"data": b"", "crc": b"XY"}}]),
+            (A.Struct(A.Renamed("hdr", A.Bytes(3)), A.Renamed("body", A.FixedSized(6, A.Struct(A.Renamed("last", A.Pointer(-1, A.Alias("Byte"))), A.Renamed("data", A.OffsettedEnd(-1, A.GreedyBytes)), A.Renamed("e", A.Alias("Byte"))))), A.Renamed("t", A.Alias("Byte"))), {},
+             [{"hdr": b"abc", "body": {"last": 9, "data": b"12345", "e": 9}, "t": 1}]),
+            (A.Array(2, A.Prefixed(A.Alias("Byte"), A.Struct(A.Renamed("d", A.OffsettedEnd(-1, A.GreedyBytes)), A.Renamed("c", A.Alias("Byte"))))), {}, [[{"d": b"ab", "c": 1}, {"d": b"xyz", "c": 2}]])]
     return out
+
+def measuring_in_streams():
+    "members that measure what their content consumed (Aligned), with content that reads to the end, inside streaming wrappers: the wrapper's position is what they measure with"
+    bits = lambda n: bytes([1, 0] * (n // 2))
+    return [(A.BitsSwapped(A.Aligned(4, A.GreedyBytes)), {}, [b"abcd", b"abcde", b"", b"abcdefgh"]),
+            (A.Bitwise(A.Aligned(16, A.GreedyBytes)), {}, [bits(16), bits(8), bits(24)]),
+            (A.BitsSwapped(A.AlignedStruct(4, A.Renamed("hdr", A.Alias("Int16ub")), A.Renamed("payload", A.GreedyBytes))), {}, [{"hdr": 1, "payload": b"ab"}, {"hdr": 2, "payload": b"abc"}]),
+            (A.Prefixed(A.Alias("Byte"), A.Bitwise(A.Aligned(16, A.GreedyBytes))), {}, [bits(16), bits(8)]),
+            (A.Struct(A.Renamed("h", A.Alias("Byte")), A.Renamed("x", A.Prefixed(A.Alias("Byte"), A.BitsSwapped(A.Aligned(3, A.GreedyBytes)))), A.Renamed("t", A.Alias("Byte"))), {},
+             [{"h": 1, "x": b"ab", "t": 2}, {"h": 1, "x": b"abc", "t": 2}])]
 
 def recursive_programs():
     "recursive formats (LazyBound): a linked list, a tree, a chain of length-prefixed envelopes"
